@@ -5,9 +5,11 @@ import CashewsVerif.Lemmas.Decor.HitStep
 C14 — early / soft / failover / hit keep their staleness and reuse bounds.
 
 Property theorems only (helper lemmas live in `Lemmas/Decor/`).  Every theorem quantifies over ALL
-histories `ops : List DOp` — calls with a scripted outcome of the wrapped function (success with a fresh
-token stamped with its virtual instant | listed exception | unlisted exception), arbitrary time
-advances, completions of background refreshes at arbitrary later points — and is proved by induction
+histories `ops : List DOp` — calls with a scripted outcome of the wrapped function and of the store step that
+follows a success (success with a fresh token stamped with its virtual instant, stored | listed exception |
+unlisted exception | success turned down by the storing `condition` | success whose store step raises — the
+`condition` / a callable `ttl` before the backend is touched, or `backend.set` itself — with a listed or an
+unlisted exception), arbitrary time advances, completions of background refreshes at arbitrary later points — and is proved by induction
 over the history (an invariant of the step function).  `trace step init ops` lists, for every operation,
 the state before it, the operation and its answer; `final step init ops` is the state afterwards.
 A served value `(stamp, id)` carries the instant at which it was produced/stored, so `now - stamp` is
@@ -72,11 +74,12 @@ theorem early_at_most_one_refresh (c : Early.Cfg) (hearly : 0 < c.early) (ops : 
 -/
 /-- **early: a call that finds a stored result (one younger than ttl) answers from the store** — also
 when it is older than early_ttl and whether or not this call triggers the refresh — *provided* the
-refresh runs in the background or, running in the foreground, succeeds.  What is missing for the full
-statement is exactly the case `background=False` + failing refresh, where the code lets the exception
-out of `await task` (D19, known finding). -/
+refresh runs in the background or, running in the foreground, raises nothing (it succeeds and is stored, or
+the condition turns its result down).  What is missing for the full statement is exactly the case
+`background=False` + a refresh that raises (the function, or the store step after it), where the code lets the
+exception out of `await task` (D19, known finding). -/
 theorem early_answers_from_store_partial (c : Early.Cfg) (ops : List DOp) (o : Outcome)
-    (hyp : c.bg = true ∨ o = .ok) :
+    (hyp : c.bg = true ∨ o.raises = false) :
     let st := final (Early.step c) Early.init ops
     ∀ s i x, cached3 st.t = some (s, i, x) → (Early.call c st o).2.res = .stored s i := by
   intro st s i x hc
@@ -173,7 +176,8 @@ theorem hit_serves_bounded_sequential (c : Hit.Cfg) (httl : 0 < c.ttl) (ops : Li
 /-- **hit, overlapping refreshes too**: for *every* history (calls while refreshes are in flight,
 refreshes finishing in any order and arbitrarily late), at most `cache_hits` serves lie between two
 consecutive execution events, where an event is the function beginning to execute or a background
-refresh finishing and storing its result (`Hit.counts true`). -/
+refresh finishing and getting as far as storing its result — stored, or refused by the backend after the
+counter was deleted (`Hit.counts true`, `Hit.reachedSet`). -/
 theorem hit_serves_bounded (c : Hit.Cfg) (httl : 0 < c.ttl) (ops : List DOp) :
     (Hit.counts true (trace (Hit.step c) Hit.init ops)).1 ≤ c.hits := by
   have h := Hit.good_run httl true ops Hit.init 0 0 (Hit.good_init c true) (fun hb => by simp at hb)
@@ -182,23 +186,127 @@ theorem hit_serves_bounded (c : Hit.Cfg) (httl : 0 < c.ttl) (ops : List DOp) :
 
 /-- **hit: a refresh is started exactly when the hit count reaches update_after.**  After any history,
 let `k` be the number of calls since a result was last stored (computed from the recorded answers).
+(With store-step failures in the history: since a store was last made *or attempted at the backend* — an
+execution whose `backend.set` is refused has already deleted the counter, the older result stays and its hits
+are counted from 0 again; `Hit.callsAfter`.)
 If a stored result is found then: the call creates a refresh task iff it is the `update_after`-th call
 since the store (with `0 < update_after ≤ cache_hits`); up to the `cache_hits`-th call the stored result is
-the answer (except that a failing *foreground* refresh raises — mirrored, the sentence about hit does not
-promise an answer); and the `(cache_hits+1)`-th and later calls execute the function again. -/
+the answer (except that a *foreground* refresh that raises — the function or its store step — lets that
+exception out: mirrored, the sentence about hit does not promise an answer); and the `(cache_hits+1)`-th and
+later calls execute the function again and are answered by that execution (`Outcome.result`: its fresh result,
+its exception, or the exception of its store step — never the stored result). -/
 theorem hit_refresh_iff_update_after (c : Hit.Cfg) (httl : 0 < c.ttl) (ops : List DOp) (o : Outcome) :
     let st := final (Hit.step c) Hit.init ops
     let k := (Hit.counts true (trace (Hit.step c) Hit.init ops)).2
     ∀ s i, cached2 st.t = some (s, i) →
       (((Hit.call c st o).2.started = true ↔ (k + 1 = c.upd ∧ c.upd ≠ 0 ∧ c.upd ≤ c.hits)) ∧
        (k + 1 ≤ c.hits → (Hit.call c st o).2.res = .stored s i ∨
-          (c.bg = false ∧ o ≠ .ok ∧ k + 1 = c.upd ∧ (Hit.call c st o).2.res = .raised o)) ∧
+          (c.bg = false ∧ o.raises = true ∧ k + 1 = c.upd ∧ (Hit.call c st o).2.res = o.result st.t.now st.nexec)) ∧
        (c.hits < k + 1 → (Hit.call c st o).2.exec = true ∧ (Hit.call c st o).2.started = false ∧
-          ((Hit.call c st o).2.res = .fresh st.t.now st.nexec ∨ (Hit.call c st o).2.res = .raised o))) := by
+          (Hit.call c st o).2.res = o.result st.t.now st.nexec)) := by
   intro st k s i hc
   have h := Hit.good_run httl true ops Hit.init 0 0 (Hit.good_init c true) (fun hb => by simp at hb)
   rw [← Hit.counts_eq] at h
   exact Hit.call_started httl h o hc
+
+/-! ## the store step after a successful execution (condition, callable ttl, `backend.set`)
+
+A result the function *returned* is never replaced by an older stored one because something went wrong — or was
+decided — afterwards: the caller gets the fresh result (also when the condition turns it down) or the exception
+the store step raised, whether or not that exception is one of the decorator's listed `exceptions`; and whatever
+is stored stays exactly what it was unless the outcome is `ok`. -/
+
+/-- **failover: a call whose execution returned is answered by that execution** — its fresh result (stored, or
+turned down by the condition), or the exception its store step raised (condition / callable ttl / `backend.set`,
+listed or not) — never a stored result; and unless the outcome is `ok` the store is left exactly as it was.
+After any history. -/
+theorem failover_returned_execution_answers (c : Fail.Cfg) (ops : List DOp) (o : Outcome) :
+    let st := final (Fail.step c) Fail.init ops
+    (o.returns = true → (Fail.call c st o).2.res = o.result st.t.now st.nexec) ∧
+    (o ≠ .ok → (Fail.call c st o).1.t = st.t) := by
+  intro st
+  have h := Fail.call_spec c st o
+  refine ⟨?_, h.2.2⟩
+  intro hr
+  cases o with
+  | ok => exact h.1 (Or.inl rfl)
+  | rejected => exact h.1 (Or.inr rfl)
+  | storeFails stg l => exact h.2.1 stg l rfl
+  | listed => simp [Outcome.returns] at hr
+  | unlisted => simp [Outcome.returns] at hr
+
+/-- **soft: a recomputation that returned is answered by itself** — whenever a call executes the function and the
+function returns, the caller gets that fresh result (stored, or turned down by the condition) or the exception
+of the store step (listed or not), never the stale result; and unless the outcome is `ok` the store is left
+exactly as it was (so the next call recomputes again: `soft_old_is_recomputed`).  After any history. -/
+theorem soft_returned_execution_answers (c : Soft.Cfg) (ops : List DOp) (o : Outcome) :
+    let st := final (Soft.step c) Soft.init ops
+    ((Soft.call c st o).2.exec = true → o.returns = true → (Soft.call c st o).2.res = o.result st.t.now st.nexec) ∧
+    (o ≠ .ok → (Soft.call c st o).1.t = st.t) := by
+  intro st
+  rcases Soft.call_cases c st o with ⟨hx, x, hcall⟩ | ⟨hx, hs⟩
+  · rw [hcall]
+    have h := Soft.execute_spec c st o x
+    refine ⟨fun _ hr => ?_, h.2.2⟩
+    cases o with
+    | ok => exact h.1 (Or.inl rfl)
+    | rejected => exact h.1 (Or.inr rfl)
+    | storeFails stg l => exact h.2.1 stg l rfl
+    | listed => simp [Outcome.returns] at hr
+    | unlisted => simp [Outcome.returns] at hr
+  · exact ⟨fun hx' => by rw [hx] at hx'; simp at hx', fun _ => by rw [hs]⟩
+
+/-- **early: whenever the function runs inside a call, the caller is handed what that execution produced** —
+its result, its exception or the exception of its store step (`Outcome.result`) when nothing was stored; for a
+foreground refresh (`started`) that raises, the same (D19); for a foreground refresh that raises nothing, the
+stored result it was started for.  After any history. -/
+theorem early_execution_answers (c : Early.Cfg) (ops : List DOp) (o : Outcome) :
+    let st := final (Early.step c) Early.init ops
+    (Early.call c st o).2.exec = true →
+      ((Early.call c st o).2.started = false ∧ cached3 st.t = none ∧
+         (Early.call c st o).2.res = o.result st.t.now st.nexec) ∨
+      ((Early.call c st o).2.started = true ∧
+        ((o.raises = true ∧ (Early.call c st o).2.res = o.result st.t.now st.nexec) ∨
+         (o.raises = false ∧ ∃ s i x, cached3 st.t = some (s, i, x) ∧ (Early.call c st o).2.res = .stored s i))) := by
+  intro st hx
+  exact Early.call_answer c st o hx
+
+/-- **early: only an execution with outcome `ok` changes the stored result.**  A call, or the completion of a
+background refresh, whose execution raises, is turned down by the condition or fails in its store step leaves
+what `get` finds under the result's key exactly as it was.  After any history. -/
+theorem early_only_ok_stores (c : Early.Cfg) (hearly : 0 < c.early) (ops : List DOp) (o : Outcome) (ho : o ≠ .ok) :
+    let st := final (Early.step c) Early.init ops
+    cached3 (Early.call c st o).1.t = cached3 st.t ∧ ∀ i, cached3 (Early.done c st i o).1.t = cached3 st.t := by
+  intro st
+  have h1 := Early.call_main hearly st o ho
+  refine ⟨cached3_congr h1.2 h1.1, fun i => ?_⟩
+  have h2 := Early.done_main (c := c) st i o ho
+  exact cached3_congr h2.2 h2.1
+
+/-- **hit: whenever the function runs inside a call, the caller is handed what that execution produced** — its
+result, its exception or the exception of its store step when the call is its own computation; for a foreground
+refresh that raises, the same; for a foreground refresh that raises nothing, the stored result.  After any
+history. -/
+theorem hit_execution_answers (c : Hit.Cfg) (ops : List DOp) (o : Outcome) :
+    let st := final (Hit.step c) Hit.init ops
+    (Hit.call c st o).2.exec = true →
+      ((Hit.call c st o).2.started = false ∧ (Hit.call c st o).2.res = o.result st.t.now st.nexec) ∨
+      ((Hit.call c st o).2.started = true ∧
+        ((o.raises = true ∧ (Hit.call c st o).2.res = o.result st.t.now st.nexec) ∨
+         (o.raises = false ∧ ∃ s i, cached2 st.t = some (s, i) ∧ (Hit.call c st o).2.res = .stored s i))) := by
+  intro st hx
+  exact Hit.call_answer c st o hx
+
+/-- **hit: only an execution with outcome `ok` changes the stored result** (a `backend.set` that is refused has
+deleted the hit counter, not the result).  After any history. -/
+theorem hit_only_ok_stores (c : Hit.Cfg) (ops : List DOp) (o : Outcome) (ho : o ≠ .ok) :
+    let st := final (Hit.step c) Hit.init ops
+    cached2 (Hit.call c st o).1.t = cached2 st.t ∧ ∀ i, cached2 (Hit.done c st i o).1.t = cached2 st.t := by
+  intro st
+  have h1 := Hit.call_main c st o ho
+  refine ⟨Hit.cached2_congr h1.2 h1.1, fun i => ?_⟩
+  have h2 := Hit.done_main c st i o ho
+  exact Hit.cached2_congr h2.2 h2.1
 
 /-! ## Non-vacuity: the models do something, and the hypotheses are satisfiable by interesting histories -/
 
@@ -251,5 +359,58 @@ example : ∀ e ∈ trace (Hit.step ⟨16, 2, 2, true⟩) Hit.init hitHist, Hit.
 
 /-- the bound is attained: cache_hits = 2 serves since the last execution -/
 example : (Hit.counts false (trace (Hit.step ⟨16, 2, 0, true⟩) Hit.init [.call .ok, .call .ok, .call .ok])).1 = 2 := by decide
+
+/-! ### … with store steps that fail or turn the result down -/
+
+/-- failover, ttl 2 s: a result is stored; later executions return but the condition raises a listed exception /
+`backend.set` raises an unlisted one: the exception is the answer, not the stored `(0,0)`; a result the condition
+turns down is returned; and the stored `(0,0)` is still what a listed failure of the function falls back to. -/
+example : answers (trace (Fail.step ⟨16⟩) Fail.init
+      [.call .ok, .adv 3, .call (.storeFails .pre true), .call (.storeFails .set false), .call .rejected, .call .listed]) =
+    [.call ⟨.fresh 0 0, true, false⟩, .ok, .call ⟨.storeErr true, true, false⟩, .call ⟨.storeErr false, true, false⟩,
+     .call ⟨.fresh 3 3, true, false⟩, .call ⟨.stored 0 0, true, false⟩] := by decide
+
+/-- soft, ttl 2 s, soft_ttl ½ s: at soft_ttl the recomputation returns but the set is refused with a listed
+exception — that exception is the answer, not the stale value; the next call recomputes again, its result is turned
+down by the condition and returned; a listed failure of the function still falls back to `(0,0)`. -/
+example : answers (trace (Soft.step ⟨16, 4⟩) Soft.init
+      [.call .ok, .adv 4, .call (.storeFails .set true), .call .rejected, .call .listed, .call .ok]) =
+    [.call ⟨.fresh 0 0, true, false⟩, .ok, .call ⟨.storeErr true, true, false⟩, .call ⟨.fresh 4 2, true, false⟩,
+     .call ⟨.stored 0 0, true, false⟩, .call ⟨.fresh 4 4, true, false⟩] := by decide
+
+/-- early, background off: nothing stored — a turned-down result is returned and the next call executes again, a
+failing store step raises; with `(0,2)` stored and older than early_ttl a foreground refresh whose set is refused
+raises (D19-like), one whose result is turned down answers from the store and the next call refreshes again. -/
+example : answers (trace (Early.step ⟨16, 4, false⟩) Early.init
+      [.call .rejected, .call (.storeFails .pre false), .call .ok, .adv 5, .call (.storeFails .set true), .call .rejected,
+       .call .ok, .call .listed]) =
+    [.call ⟨.fresh 0 0, true, false⟩, .call ⟨.storeErr false, true, false⟩, .call ⟨.fresh 0 2, true, false⟩, .ok,
+     .call ⟨.storeErr true, true, true⟩, .call ⟨.stored 0 2, true, true⟩, .call ⟨.stored 0 2, true, true⟩,
+     .call ⟨.stored 5 5, false, false⟩] := by decide
+
+/-- early, background on: background refreshes whose store step fails / whose result is turned down release the
+lock and leave the stored result; the next call starts another refresh. -/
+example : answers (trace (Early.step ⟨16, 4, true⟩) Early.init
+      [.call .ok, .adv 5, .call .ok, .done 0 (.storeFails .set true), .call .ok, .done 0 .rejected, .call .ok, .done 0 .ok,
+       .call .listed]) =
+    [.call ⟨.fresh 0 0, true, false⟩, .ok, .call ⟨.stored 0 0, false, true⟩, .done .failed, .call ⟨.stored 0 0, false, true⟩,
+     .done .skipped, .call ⟨.stored 0 0, false, true⟩, .done .stored, .call ⟨.stored 5 3, false, false⟩] := by decide
+
+/-- hit, cache_hits 2: after two serves the third call executes; `backend.set` refuses its result — the exception
+is the answer, the counter is gone, the older result is served for two more calls, then the function runs again;
+a store step failing before the backend / a turned-down result leave the counter running: every later call executes. -/
+example : answers (trace (Hit.step ⟨16, 2, 0, true⟩) Hit.init
+      [.call .ok, .call .ok, .call .ok, .call (.storeFails .set false), .call .listed, .call .listed, .call .listed,
+       .call (.storeFails .pre true), .call .rejected, .call .ok]) =
+    [.call ⟨.fresh 0 0, true, false⟩, .call ⟨.stored 0 0, false, false⟩, .call ⟨.stored 0 0, false, false⟩,
+     .call ⟨.storeErr false, true, false⟩, .call ⟨.stored 0 0, false, false⟩, .call ⟨.stored 0 0, false, false⟩,
+     .call ⟨.raised .listed, true, false⟩, .call ⟨.storeErr true, true, false⟩, .call ⟨.fresh 0 4, true, false⟩,
+     .call ⟨.fresh 0 5, true, false⟩] := by decide
+
+/-- hit, cache_hits 3, update_after 1, background on: the background refresh finishes with its set refused; the
+counter restarts, the next call is again the `update_after`-th and starts a refresh; the bound 3 is attained. -/
+example : (Hit.counts true (trace (Hit.step ⟨16, 3, 1, true⟩) Hit.init
+      [.call .ok, .call .ok, .call .ok, .done 0 (.storeFails .set true), .call .ok, .call .ok, .call .ok])) = (3, 3) := by
+  decide
 
 end CashewsVerif.Props.C14
